@@ -398,6 +398,9 @@ def finish(ctx, mod):
     lines = []
     rc = 0
     seen_known = set()
+
+    def _what(k):
+        return re.sub(r'^(known|fixed):\s*property=\S+\s*', '', k['what'])
     oracle_v = [v for v in ctx.violations if v['kind'] == 'oracle']
     other_v = [v for v in ctx.violations if v['kind'] != 'oracle']
     new_oracle = []
@@ -405,7 +408,7 @@ def finish(ctx, mod):
         if v['key'] in known_keys:
             if v['key'] not in seen_known:
                 seen_known.add(v['key'])
-                lines.append('KNOWN-FINDING: property=%s %s' % (ctx.pid, known_keys[v['key']]['what']))
+                lines.append('KNOWN-FINDING: property=%s %s' % (ctx.pid, _what(known_keys[v['key']])))
         else:
             new_oracle.append(v)
     # a correspondence/proof break that is explained by a known finding carries that finding's key
@@ -414,7 +417,7 @@ def finish(ctx, mod):
         if v['key'] in known_keys:
             if v['key'] not in seen_known:
                 seen_known.add(v['key'])
-                lines.append('KNOWN-FINDING: property=%s %s' % (ctx.pid, known_keys[v['key']]['what']))
+                lines.append('KNOWN-FINDING: property=%s %s' % (ctx.pid, _what(known_keys[v['key']])))
         else:
             new_other.append(v)
     n = 0
